@@ -1484,6 +1484,13 @@ fn render_type(type_def: &Type) -> String {
         Type::Primitive(PrimitiveType::Int) => "'int".to_string(),
         Type::Primitive(PrimitiveType::Bin) => "'bin".to_string(),
         Type::Primitive(PrimitiveType::Ref) => "'ref".to_string(),
+        // A type parameter may be named like a primitive (`'box<'int> = Box[<'int>]`); written
+        // `'int` it would read back as the primitive, so it keeps the `<'…>` reference form.
+        Type::Identifier { name, arguments }
+            if arguments.is_empty() && matches!(name.as_str(), "int" | "bin" | "ref") =>
+        {
+            format!("<'{}>", name)
+        }
         Type::Identifier { name, arguments } => {
             format!("'{}{}", name, render_type_arguments(arguments))
         }
